@@ -5,10 +5,6 @@ import (
 	"strings"
 )
 
-func (p *Program) selfTest(repo, scratch string, ov map[string][]byte, seed int64, verbose bool) (int, error) {
-	return 0, nil
-}
-
 // guardCheckSlow: guard discipline (C10). Every plain load/store of a declared field, executed by repository code
 // while checking is on, must happen with the field's guard locked (by anyone: kafka-go hands locks over), and
 // atomic-only fields must never be accessed by plain loads/stores.
